@@ -19,9 +19,9 @@ crash_instances! { crash_shape_a, false, false, true;
 crash_instances! { crash_shape_b, true, true, false;
     c09_b_k02 = 2, c09_b_k03 = 3, c09_b_k04 = 4, c09_b_k05 = 5, c09_b_k06 = 6, c09_b_k07 = 7, c09_b_k08 = 8, c09_b_k09 = 9, c09_b_k10 = 10, c09_b_k11 = 11, c09_b_k12 = 12, c09_b_k13 = 13 }
 crash_instances! { crash_shape_c, true, true, false;
-    c09_c_k06 = 6, c09_c_k08 = 8, c09_c_k10 = 10, c09_c_k12 = 12, c09_c_k14 = 14, c09_c_k16 = 16, c09_c_k18 = 18, c09_c_k20 = 20, c09_c_k22 = 22, c09_c_k24 = 24, c09_c_k26 = 26, c09_c_k28 = 28, c09_c_k30 = 30 }
+    c09_c_k06 = 6, c09_c_k07 = 7, c09_c_k08 = 8, c09_c_k09 = 9, c09_c_k10 = 10, c09_c_k11 = 11, c09_c_k12 = 12, c09_c_k13 = 13, c09_c_k14 = 14, c09_c_k15 = 15, c09_c_k16 = 16, c09_c_k17 = 17, c09_c_k18 = 18, c09_c_k19 = 19, c09_c_k20 = 20, c09_c_k21 = 21, c09_c_k22 = 22, c09_c_k23 = 23, c09_c_k24 = 24, c09_c_k25 = 25, c09_c_k26 = 26, c09_c_k27 = 27, c09_c_k28 = 28, c09_c_k29 = 29, c09_c_k30 = 30 }
 crash_instances! { crash_shape_a, true, true, false;
-    c09_a_k10 = 10, c09_a_k12 = 12, c09_a_k14 = 14, c09_a_k16 = 16, c09_a_k18 = 18, c09_a_k20 = 20, c09_a_k22 = 22, c09_a_k24 = 24, c09_a_k26 = 26, c09_a_k28 = 28, c09_a_k30 = 30, c09_a_k32 = 32 }
+    c09_a_k10 = 10, c09_a_k11 = 11, c09_a_k12 = 12, c09_a_k13 = 13, c09_a_k14 = 14, c09_a_k15 = 15, c09_a_k16 = 16, c09_a_k17 = 17, c09_a_k18 = 18, c09_a_k19 = 19, c09_a_k20 = 20, c09_a_k21 = 21, c09_a_k22 = 22, c09_a_k23 = 23, c09_a_k24 = 24, c09_a_k25 = 25, c09_a_k26 = 26, c09_a_k27 = 27, c09_a_k28 = 28, c09_a_k29 = 29, c09_a_k30 = 30, c09_a_k31 = 31, c09_a_k32 = 32 }
 
 crash_instances! { crash_shape_d, false, false, true;
     c03_d_k08 = 8, c03_d_k09 = 9, c03_d_k10 = 10, c03_d_k11 = 11, c03_d_k12 = 12, c03_d_k13 = 13, c03_d_k14 = 14, c03_d_k15 = 15, c03_d_k16 = 16, c03_d_k17 = 17, c03_d_k18 = 18, c03_d_k19 = 19, c03_d_k20 = 20, c03_d_k21 = 21, c03_d_k22 = 22, c03_d_k23 = 23, c03_d_k24 = 24, c03_d_k25 = 25, c03_d_k26 = 26 }
@@ -114,6 +114,31 @@ s_harness! { fn c20_m2_k13() { fault_shape_m2(13, 0) } }
 s_harness! { fn c20_m2_k14() { fault_shape_m2(14, 0) } }
 s_harness! { fn c20_m2_k15() { fault_shape_m2(15, 0) } }
 
+s_harness! { fn c20_m3_k00() { fault_shape_m3(0) } }
+s_harness! { fn c20_m3_k01() { fault_shape_m3(1) } }
+s_harness! { fn c20_m3_k02() { fault_shape_m3(2) } }
+s_harness! { fn c20_m3_k03() { fault_shape_m3(3) } }
+s_harness! { fn c20_m3_k04() { fault_shape_m3(4) } }
+s_harness! { fn c20_m3_k05() { fault_shape_m3(5) } }
+s_harness! { fn c20_m3_k06() { fault_shape_m3(6) } }
+s_harness! { fn c20_m3_k07() { fault_shape_m3(7) } }
+s_harness! { fn c20_m3_k08() { fault_shape_m3(8) } }
+s_harness! { fn c20_m3_k09() { fault_shape_m3(9) } }
+s_harness! { fn c20_m3_k10() { fault_shape_m3(10) } }
+s_harness! { fn c20_m4_k00() { fault_shape_m4(0) } }
+s_harness! { fn c20_m4_k01() { fault_shape_m4(1) } }
+s_harness! { fn c20_m4_k02() { fault_shape_m4(2) } }
+s_harness! { fn c20_m4_k03() { fault_shape_m4(3) } }
+s_harness! { fn c20_m4_k04() { fault_shape_m4(4) } }
+s_harness! { fn c20_m4_k05() { fault_shape_m4(5) } }
+s_harness! { fn c20_m4_k06() { fault_shape_m4(6) } }
+s_harness! { fn c20_m4_k07() { fault_shape_m4(7) } }
+s_harness! { fn c20_m4_k08() { fault_shape_m4(8) } }
+s_harness! { fn c20_m4_k09() { fault_shape_m4(9) } }
+s_harness! { fn c20_m4_k10() { fault_shape_m4(10) } }
+s_harness! { fn c20_m5_k00() { fault_shape_m5(0, 0) } }
+s_harness! { fn c20_m5_k01() { fault_shape_m5(1, 0) } }
+s_harness! { fn c20_m5w_k00() { fault_shape_m5(0, 1) } }
 s_harness! { fn c20_m0_k00() { fault_shape_m0(0, 0) } }
 s_harness! { fn c20_m0_k01() { fault_shape_m0(1, 0) } }
 s_harness! { fn c20_m0w_k00() { fault_shape_m0(0, 1) } }
